@@ -66,13 +66,22 @@ AdjFactorIsNeighbourhood == \A n \in st.nodes :
 \* with every other Laplacian
 One(n, m) == 1
 Complete(d) == OfOrder(st, d) = {Key(s, {}, 0) : s \in {s \in SUBSET st.nodes : Cardinality(s) = d + 1}}
-LaplaciansCommute == \A d, e \in XOrders :
-   LET Ld(n, m) == LapD(st, d, n, m)
-       Le(n, m) == LapD(st, e, n, m)
-   IN /\ Commute(Ld, Ld, st.nodes)
-      /\ \A n, m \in st.nodes : MatProd(Ld, One, st.nodes, n, m) = 0 /\ MatProd(One, Ld, st.nodes, n, m) = 0
-      /\ Commute(Ld, Le, st.nodes) <=> Commute(Le, Ld, st.nodes)
-      /\ (Kind = "hg" /\ d >= 1 /\ Complete(d)) => Commute(Ld, Le, st.nodes)
+\* (orders 0 and >= N have a zero Laplacian; the pairs d < e over the orders 1..N-1 are the ones that can differ)
+LapOrders == 1..(Cardinality(Node) - 1)
+LaplaciansCommute ==
+   /\ \A d \in LapOrders :
+         LET K == OfOrder(st, d)
+             Ld(n, m) == LapK(K, d, n, m)
+         IN /\ Commute(Ld, Ld, st.nodes)
+            /\ \A n, m \in st.nodes : MatProd(Ld, One, st.nodes, n, m) = 0 /\ MatProd(One, Ld, st.nodes, n, m) = 0
+   /\ \A d, e \in LapOrders : d < e =>
+         LET Kd == OfOrder(st, d)
+             Ke == OfOrder(st, e)
+             Ld(n, m) == LapK(Kd, d, n, m)
+             Le(n, m) == LapK(Ke, e, n, m)
+         IN /\ Commute(Ld, Le, st.nodes) <=> Commute(Le, Ld, st.nodes)
+            /\ (Kind = "hg" /\ (Complete(d) \/ Complete(e))) => Commute(Ld, Le, st.nodes)
+            /\ (Kd = {} \/ Ke = {} \/ NodesOfKeys(Kd) \cap NodesOfKeys(Ke) = {}) => Commute(Ld, Le, st.nodes)
 
 \* X01-d: per time, the orders add up to the temporal adjacency and are the per-order adjacency of the snapshot
 TempAdjSplitsByOrder == Kind = "temp" => \A tm \in XS, n, m \in st.nodes :
